@@ -23,6 +23,16 @@ def run(tier, seed, replay=None):
              "watcher with re-publication, 2 threads x 2 calls": dict(base, Watcher=True, MaxMsgs=2, Resend=True),
              "cancelled contexts, 2 threads x 2 calls": dict(base, Cancels=True),
              "cancelled contexts, watcher, 3 threads x 1 call": dict(base, Cancels=True, Watcher=True, MaxMsgs=1, Threads="{1,2,3}", MaxCalls=1)}
+    # any number of calls per thread (the call counter is frozen, results keep only the last one): strong fairness, leads-to properties
+    unbounded = {"any number of calls, 2 threads": dict(base, MaxCalls=0)}
+    if tier == "thorough":
+        unbounded["any number of calls, 2 threads, watcher, 2 messages"] = dict(base, MaxCalls=0, Watcher=True, MaxMsgs=2)
+        unbounded["any number of calls, 2 threads, cancelled contexts"] = dict(base, MaxCalls=0, Cancels=True)
+    for n, c in unbounded.items():
+        u = vlib.tlc("ReceiverLocks", ("rlu.cfg", vlib.cfg_text(c, ["MutexReleased", "ResultsOK"], properties=["Returns", "WatcherExits"], spec="SpecU")),
+                     workers=8, timeout=7000, tag="c16u", heap="8g")
+        ck.add_tlc("ReceiverLocks/" + n, u, "every call under way returns once a Close has been called, for any number of calls per thread (strong fairness)")
+        shutil.rmtree(u.workdir, ignore_errors=True)
     if tier == "thorough":
         locks["3 threads x 2 calls"] = dict(base, Threads="{1,2,3}", MaxCalls=2)
         locks["2 threads x 3 calls"] = dict(base, MaxCalls=3)
